@@ -193,6 +193,7 @@ func runC04(line string) string {
 	}
 	var replies, execs []string
 	redirected := 0
+	firstMiss := 0 // strict cases: requests whose first hop was not the owner of the slot
 	for _, it := range strings.Split(hd[1], " ; ") {
 		it = strings.TrimSpace(it)
 		if it == "" {
@@ -313,12 +314,19 @@ func runC04(line string) string {
 				cl.onAsk()
 			}
 			ex := 0
+			first, firstSeq := -1, 0
 			for _, nd := range cl.nodes {
 				for _, e := range nd.log {
 					if e.result == "exec" && !strings.Contains(e.cmd, hex.EncodeToString([]byte("bg:key"))) {
 						ex++
 					}
+					if (e.result == "exec" || e.result == "moved" || e.result == "ask") && (first < 0 || e.seq < firstSeq) {
+						first, firstSeq = nd.idx, e.seq
+					}
 				}
+			}
+			if f[2] == "2" && first >= 0 && v.t == '*' && len(v.a) >= 2 && cl.owner[simSlot(v.a[1].s)] != first {
+				firstMiss++
 			}
 			cl.mu.Unlock()
 			execs = append(execs, strconv.Itoa(ex))
@@ -359,8 +367,79 @@ func runC04(line string) string {
 		}
 	}
 	sort.Strings(data)
+	strict := ""
+	if f[2] == "2" {
+		// no slot changed its owner during the case and the table was loaded before the first request: every command
+		// must have gone to the owner of its slot first
+		// (a MOVED as such is not a miss: the proxy's own CLUSTER NODES may slip between ASKING and the command)
+		strict = fmt.Sprintf(" sent-to-a-node-that-does-not-own-the-slot=%d", firstMiss)
+	}
 	return strings.Join(replies, " ; ") + bgBad + " || " + strings.Join(data, " ") + " || " + strings.Join(execs, ",") +
-		fmt.Sprintf(" || redirected-to-client=%d lost-or-duplicated-keys=%d", redirected, dup)
+		fmt.Sprintf(" || redirected-to-client=%d lost-or-duplicated-keys=%d", redirected, dup) + strict
+}
+
+// strict cases (bg field "2"): migrations begin and keys move but no slot changes its owner; one connection, single-key
+// commands only (two ASKING+command pairs of one multi-key command may interleave on the target's connection, which
+// makes the target answer MOVED legitimately)
+func init() {
+	register("c04strict", func() {
+		cases, impl := create("cases.txt"), create("impl.txt")
+		hist := map[string]int{}
+		runLine := func(line string) {
+			fmt.Fprintln(cases, line)
+			fmt.Fprintln(impl, runC04(line))
+		}
+		if *fIn != "" {
+			for _, l := range readLines(*fIn) {
+				runLine(l)
+			}
+			writeHist(hist)
+			return
+		}
+		r := newRng(*fSeed)
+		for i := 0; i < *fN && !expired(); i++ {
+			n := 2 + r.intn(3)
+			var keys [][]byte
+			for j := 0; j < 4; j++ {
+				keys = append(keys, []byte("k"+strconv.Itoa(r.intn(40))))
+			}
+			keys = append(keys, []byte("{t}a"), []byte("{t}b"), []byte("ctr0"))
+			var items []string
+			for j, nj := 0, 6+r.intn(20); j < nj; j++ {
+				k := keys[r.intn(len(keys))]
+				switch r.intn(8) {
+				case 0:
+					items = append(items, fmt.Sprintf("mb %d %d", simSlot(k), r.intn(n)))
+				case 1, 2:
+					items = append(items, "mk "+hex.EncodeToString(k))
+				default:
+					val := []byte("v" + strconv.Itoa(r.intn(30)))
+					var v *wv
+					switch r.intn(5) {
+					case 0:
+						v = bulkArr([]byte("set"), k, val)
+					case 1:
+						v = bulkArr([]byte("get"), k)
+					case 2:
+						v = bulkArr([]byte("incr"), k)
+					case 3:
+						v = bulkArr([]byte("rpush"), k, val)
+					default:
+						v = bulkArr([]byte("append"), k, val)
+					}
+					q := "q " + v.String()
+					if r.chance(1, 4) {
+						q += " @ask mk " + hex.EncodeToString(keys[r.intn(len(keys))])
+					}
+					items = append(items, q)
+				}
+			}
+			hist[fmt.Sprintf("nodes=%d", n)]++
+			runLine(fmt.Sprintf("%d %s 2 # %s", n, c03Layout(r, n), strings.Join(items, " ; ")))
+		}
+		hist["ASK replies sent by nodes"] = c04Asks
+		writeHist(hist)
+	})
 }
 
 func init() {
